@@ -310,13 +310,21 @@ def check_history(case, sess: Session):
                                 e[3] = 0.0 if e[3] else 0.9
                         for e in w3["eps"]:
                             e["text"] = e["text"] + f" river moon {op['i'] % 7}"
+                        from vlib.harness import reuse_address
                         for name_ in ("C", "U"):
                             old_env = envs[name_][0]
                             cfg_keep = old_env.cfg
-                            old_env.state.clear()
-                            gc.collect()
+                            old_ids = {k_: id(old_env.state.get(k_)) for k_ in ("mem_index", "store") if old_env.state.get(k_) is not None}
                             new_env = TurnEnv(cfg_c if name_ == "C" else cfg_u, copy.deepcopy(w3), cfg_obj=cfg_keep)
                             new_env.__enter__()
+                            old_env.state.clear()
+                            gc.collect()
+                            # the new state's index / store objects re-created on the very addresses of the dead ones
+                            for k_, oid in old_ids.items():
+                                obj = reuse_address(oid, new_env.state[k_]) if name_ == "C" and hasattr(new_env.state.get(k_), "__dict__") else None
+                                if obj is not None:
+                                    new_env.state[k_] = obj
+                                    sess.count("replace_state:" + k_ + "_on_the_dead_object's_address")
                             extra_envs.append(new_env)
                             envs[name_] = [new_env]
                         holder["pending"] = op
@@ -509,6 +517,7 @@ def main(tier: str, seed: int):
     sess.require("hits_served:t1-stage", 50)
     sess.require("hits_served:turn-level", 30)
     sess.require("hits_served:t2-stage", 10)
+    sess.require("replace_state:mem_index_on_the_dead_object's_address", 3)
     sess.finish()
 
 
